@@ -2,21 +2,30 @@ PROPS["C18"] = dict(
     pkg="p_mixer", hooks=[], level="exploration", design="DESIGN.md §4 C18",
     technique="differential PBT against a two-pointer reference merge; bounded-exhaustive sequence pairs x selectors x "
               "source kinds x call programs, plus rapid long inputs and long programs",
-    rule="case = (two int sequences, source kind per input, selector, call program over HasNext/Next/Reset followed by a full "
-         "drain); every element carries its origin (value*1000+side*100+index, selectors compare the value only) so that tie "
-         "preference and per-input order are observable. Exhaustive: all pairs of sequences over {1,2,3} of length 0..3 "
-         "(thorough: also 0..4) x 5 selectors (<, <=, always-first, always-second, >) x 3x3 source kinds x every program to the "
-         "depth in exhaustive_parts; rapid: lengths 0..40, alphabets of 1..20 values, sorted under the selector in 60% of the "
-         "draws, programs up to 120 (200) calls. Source kinds: WrapIntSlice, a wrapper without Reset (Reset must return an "
+    rule="case = (two int sequences, a second pair of sequences, source kind per input, selector, call program over HasNext/Next/"
+         "Reset/Init-again followed by a full drain); letter i calls Init on the same Mixer value with fresh iterators over the "
+         "other pair of inputs, after which the expected output is a fresh merge of the new inputs. Every element carries its "
+         "origin (value<<15|init generation|side|index, selectors compare the value only) so that tie preference, per-input "
+         "order and stale look-ahead are observable. The selector handed to the mixer also checks its arguments: it must be asked "
+         "about exactly (current head of input 1, current head of input 2) and never while an input has no head "
+         "(sig mixer:selector-got-non-head). Exhaustive: all pairs of sequences over {1,2,3} of length 0..3 (thorough: also 0..4) "
+         "x 5 selectors (<, <=, always-first, always-second, >) x source kinds x every program over {h,n,r,i} / {h,n,r} to the "
+         "depths in exhaustive_parts; re-Init inputs there are the swapped pair and, as a second variant, two empty inputs; a "
+         "pair with a non-resettable source is enumerated only with programs whose first Reset is the last call (the wrapper "
+         "delegates every other call and the case ends at the refused Reset). rapid: lengths 0..40, alphabets of 1..20 values, "
+         "sorted under the selector in 60% of the draws, independent second pair, programs up to 120 (200) calls, no reductions. Source kinds: WrapIntSlice, a wrapper without Reset (Reset must return an "
          "error; the mixer is not used afterwards because its state after a refused Reset is undocumented), and a resettable "
          "source whose final HasNext says true while the following Next returns (0,false) and which stays exhausted "
          "afterwards (iterator.go imparity; the undelivered element is not part of the input). Sources that revive after "
          "reporting exhaustion are not generated. non-trivial = the selector decided a tie between equal heads, or exactly one "
          "input is empty, or a successful Reset happened midway / on a loaded look-ahead / after the end, or HasNext was "
-         "called twice in a row, or a lying final HasNext was consumed; distinct = FNV hash of the whole case",
+         "called twice in a row, or a lying final HasNext was consumed, or Init was called again while a look-ahead was pending; distinct = FNV hash of the whole case",
     assumptions=["reference merge written from the C18 statement: head of input 1 is emitted iff input 2 is exhausted or "
                  "(input 1 is not exhausted and selector(head1, head2)); when Next returns ok=false its value is not compared",
-                 "Reset with two resettable sources is required to succeed (the sources' own Reset returns nil)"],
+                 "Reset with two resettable sources is required to succeed (the sources' own Reset returns nil)",
+                 "'any selector' includes selectors that are only defined on real elements: consulting the selector with anything "
+                 "but the two current heads is reported even when the emitted sequence is unaffected",
+                 "Init on a used Mixer value must leave nothing of the previous inputs behind (Init 'initializes the mixer')"],
     units=[
         dict(name="exhaustive", run="^TestC18Exhaustive$", shards=(16, 16), timeout=(200, 1200)),
         dict(name="rapid", run="^TestC18Rapid$", checks=(10000, 200000), shards=(2, 16), timeout=(200, 1200)),
@@ -25,7 +34,8 @@ PROPS["C18"] = dict(
 
 LEVEL_TEXT["C18"] = (
     "Generated-input search with an exact oracle: every pair of short sequences over a 3-value alphabet, every selector, every "
-    "combination of source kinds and every HasNext/Next/Reset program up to a depth bound, plus random long inputs and programs, "
-    "are compared call by call with a two-pointer reference merge in which each element is tagged with its origin. No "
+    "combination of source kinds and every HasNext/Next/Reset/re-Init program up to a depth bound, plus random long inputs and "
+    "programs, are compared call by call with a two-pointer reference merge in which each element is tagged with its origin, and "
+    "the selector verifies that it is only consulted about the two current heads. No "
     "counterexample among the cases counted in the evidence; not a proof for longer inputs, deeper programs or other selectors."
 )
